@@ -104,6 +104,11 @@ def gen_jacobian(r, Ls, n):
 def lu_case(r, kind, L, csc, n, blocks, es, garbage=None):
     av = G.diag_dominant_values(r, n, es, blocks)
     b = [G.gen_value(r, "any") for _ in range(blocks * n)]
+    if r.chance(0.15):
+        # badly scaled but perfectly conditioned systems: pivots far below machine epsilon (or huge) in absolute terms
+        sc = r.pick([2.0 ** -60, 1e-17, 1e-30, 1e-150, 1e20, 1e150])
+        av = [v * sc for v in av]
+        if r.chance(0.5): b = [v * sc for v in b]
     g = garbage if garbage is not None else r.pick([0.0, 7.5, -3.25, float("nan"), 1e300])
     line = " ".join(["lu", str(kind), str(n), str(csc), str(L), str(blocks)] + G.pairs_tokens(es) + [hexd(v) for v in av] + [hexd(g)] + [hexd(v) for v in b])
     meta = dict(kind=kind, L=L, csc=csc, n=n, blocks=blocks, es=es, A=[F(v) for v in av], b=[F(v) for v in b])
